@@ -102,6 +102,8 @@ InitEnum == /\ Source = "enum" /\ tid = 0
             /\ cfg \in [Objs -> {c \in ObjCfg : Realisable(c)}]
             /\ \A o \in Objs \ RichObjs : cfg[o] \in Menu
             /\ W \in BOOLEAN /\ V \in {0, 0 - 1}
+            \* (quick bound: -q is combined with a clean neighbour only)
+            /\ (V = 0 - 1 => \A o \in Objs \ RichObjs : Clean(cfg[o]))
             /\ todo = UNION {Events(o, cfg[o]) : o \in Objs}
 InitFile == /\ Source = "file" /\ tid \in 1..Len(Traces) /\ cfg = 0
             /\ W = Traces[tid].W /\ V = Traces[tid].V
